@@ -30,6 +30,12 @@ fn bump_bytes(b: &[u8]) -> Vec<Vec<u8>> {
     let mut c = b.to_vec();
     c[0] ^= 1;
     v.push(c);
+    // another value of a byte that is not ASCII (inside an invalid or multi-byte sequence)
+    if let Some(i) = b.iter().rposition(|x| *x >= 0x80) {
+      let mut c = b.to_vec();
+      c[i] ^= 1;
+      v.push(c);
+    }
   }
   v
 }
